@@ -143,7 +143,7 @@ pub trait MapC: Sized + Clone + 'static {
     fn entries(&self) -> Vec<(u8, &Self::V)>;
 }
 
-impl<V: Clone + Debug + 'static> MapC for HashMap<u8, V> {
+impl<V: Clone + 'static> MapC for HashMap<u8, V> {
     type V = V;
     fn cname() -> String {
         "HashMap".into()
@@ -157,7 +157,7 @@ impl<V: Clone + Debug + 'static> MapC for HashMap<u8, V> {
         v
     }
 }
-impl<V: Clone + Debug + 'static> MapC for BTreeMap<u8, V> {
+impl<V: Clone + 'static> MapC for BTreeMap<u8, V> {
     type V = V;
     fn cname() -> String {
         "BTreeMap".into()
@@ -169,7 +169,7 @@ impl<V: Clone + Debug + 'static> MapC for BTreeMap<u8, V> {
         self.iter().map(|(k, v)| (*k, v)).collect()
     }
 }
-impl<V: Clone + Debug + 'static> MapC for VecMap<u8, V> {
+impl<V: Clone + 'static> MapC for VecMap<u8, V> {
     type V = V;
     fn cname() -> String {
         "VecMap".into()
@@ -182,7 +182,7 @@ impl<V: Clone + Debug + 'static> MapC for VecMap<u8, V> {
         self.keys.iter().copied().zip(self.vals.iter()).collect()
     }
 }
-impl<V: Clone + Debug + 'static, const N: usize> MapC for ArrayMap<u8, V, N> {
+impl<V: Clone + 'static, const N: usize> MapC for ArrayMap<u8, V, N> {
     type V = V;
     fn cname() -> String {
         format!("ArrayMap{N}")
@@ -194,7 +194,7 @@ impl<V: Clone + Debug + 'static, const N: usize> MapC for ArrayMap<u8, V, N> {
         self.keys.iter().copied().zip(self.vals.iter()).collect()
     }
 }
-impl<V: Clone + Debug + 'static> MapC for SingletonMap<u8, V> {
+impl<V: Clone + 'static> MapC for SingletonMap<u8, V> {
     type V = V;
     fn cname() -> String {
         "SingletonMap".into()
@@ -211,7 +211,7 @@ impl<V: Clone + Debug + 'static> MapC for SingletonMap<u8, V> {
         vec![(self.0, &self.1)]
     }
 }
-impl<V: Clone + Debug + 'static> MapC for OptionMap<u8, V> {
+impl<V: Clone + 'static> MapC for OptionMap<u8, V> {
     type V = V;
     fn cname() -> String {
         "OptionMap".into()
@@ -227,7 +227,7 @@ impl<V: Clone + Debug + 'static> MapC for OptionMap<u8, V> {
         self.0.iter().map(|(k, v)| (*k, v)).collect()
     }
 }
-impl<V: Clone + Debug + 'static> MapC for EmptyMap<u8, V> {
+impl<V: Clone + 'static> MapC for EmptyMap<u8, V> {
     type V = V;
     fn cname() -> String {
         "EmptyMap".into()
